@@ -129,7 +129,7 @@ class SymVal(object):
                     if p.id in out and idx.get(p.id, 1 << 30) < idx[n.id]:      # forward edges only
                         s = out[p.id]
                         if p.kind in ('cond',) and lab in ('T', 'F'):
-                            s = dict(vals=s['vals'], conds=s['conds'] | {(p.id, lab)})
+                            s = dict(vals=self._refine(s['vals'], p, lab), conds=s['conds'] | {(p.id, lab)})
                         ins.append(s)
                 if not ins:
                     continue
@@ -163,6 +163,34 @@ class SymVal(object):
                     else:
                         steps.add(None)
             info['step'] = dict(list(steps)[0]) if len(steps) == 1 and None not in steps else None
+
+    def _refine(self, vals, cond, lab):
+        """On an edge that tests a tracked pointer local against null, alternatives the test rules out are dropped."""
+        x = peel(cond.ast) if cond.ast is not None else None
+        if x is None:
+            return vals
+        var, isnull = None, None
+        if x.get('kind') == 'BinaryOperator' and x.get('opcode') in ('==', '!='):
+            a, b = [peel(c) for c in kids(x)]
+            for (p_, q_) in ((a, b), (b, a)):
+                if p_.get('kind') == 'DeclRefExpr' and q_.get('kind') in ('CXXNullPtrLiteralExpr', 'GNUNullExpr'):
+                    var = (p_.get('referencedDecl') or {}).get('id')
+                    isnull = (x['opcode'] == '==') == (lab == 'T')
+        elif x.get('kind') == 'DeclRefExpr' and (dtype(x) or '').rstrip().endswith('*'):
+            var = (x.get('referencedDecl') or {}).get('id')
+            isnull = (lab == 'F')
+        if var is None or var not in vals or len(vals[var]) < 2:
+            return vals
+        keep = tuple((g_, t) for (g_, t) in vals[var] if (t == ('key', None, 'null')) == isnull)
+        if not keep or len(keep) == len(vals[var]):
+            return vals
+        vals = dict(vals)
+        r = self._phi(list(keep), var)
+        if r is None:
+            vals.pop(var)
+        else:
+            vals[var] = r
+        return vals
 
     def _join(self, ins):
         if len(ins) == 1:
@@ -449,6 +477,13 @@ class SymVal(object):
             sv = self.ev(args[0], st)
             return self._map(sv, lambda t: ('elem', t[1], t[2]) if t[0] == 'ptr' else ('key', None, '*(%s)' % render(t)))
         svs = [self.ev(a, st) for a in args]
+        if nm in ('operator-', 'operator+') and len(args) == 2 and all(single(s) for s in svs):
+            ta, tb = single(svs[0]), single(svs[1])
+            ia = self._as_int(ta) if ta[0] != 'ptr' else None
+            ib = self._as_int(tb) if tb[0] != 'ptr' else None
+            if ia and ib and not (ta[0] == 'key' and tb[0] == 'key' and ta[2].startswith('s:')):
+                # a count of units: difference / sum of two counts is linear in them
+                return mk(('int', None, ladd(ia[2], ib[2], 1 if nm == 'operator+' else -1)))
         if nm and nm.startswith('operator') and len(args) == 2 and all(single(s) for s in svs):
             return mk(('key', None, '(%s %s %s)' % (render(single(svs[0])), nm[8:], render(single(svs[1])))))
         return mk(('key', None, self._key(x, st)))
